@@ -70,8 +70,16 @@ func Check() *core.Check {
 // numPinned must equal len(pinned) (pinned.go: 5 regression witnesses + 3 known-finding witnesses appended in init).
 const numPinned = 8
 
+// try-stack depth dimension (see run): extra enclosing try/finally levels; nesting inside return() / finally blocks;
+// nesting inside next() (kept smaller: what next() has already pushed can no longer grow the stack in return())
+var (
+	depthK = []int{0, 1, 2, 3, 5, 8, 13}
+	depthR = []int{0, 0, 1, 2, 3, 4, 6, 9}
+	depthN = []int{0, 0, 0, 1, 2}
+)
+
 const (
-	quickRandom    = 450
+	quickRandom    = 320
 	thoroughRandom = 4000
 )
 
@@ -219,7 +227,28 @@ func run(c *core.Ctx) core.Result {
 	res := core.Result{Verdict: core.Held, Key: base.Body(ctlref.ModeFunction)}
 	var faultCands []*instance
 	for vi, v := range vs {
-		prog, exitID := ctlref.Apply(base, v)
+		prog, ins := ctlref.Apply(base, v)
+		// try-stack depth dimension (ctlref.Deepen): k extra enclosing try/finally levels, nested try statements inside
+		// the iterators' next()/return() and inside every finally block — so that try frames pushed while an exit is being
+		// dispatched (return() called during unwinding, finally blocks of generators being closed) cross every capacity
+		// boundary of the engine's try stack. The base variant stays plain.
+		if vi > 0 {
+			h := core.HashString(fmt.Sprintf("%d/%d", c.Index, vi))
+			k := depthK[h%uint64(len(depthK))]
+			tdr := depthR[(h>>8)%uint64(len(depthR))]
+			tdn := depthN[(h>>16)%uint64(len(depthN))]
+			tm := int((h >> 24) % 4)
+			if k+tdr+tdn > 0 {
+				ctlref.Deepen(prog, k, tdn, tdr, tm)
+				prog.Number()
+				st.Inc(fmt.Sprintf("try_depth:wrap=%d", k))
+				st.Inc(fmt.Sprintf("try_depth:return()=%d", tdr))
+			}
+		}
+		exitID := 0
+		if ins != nil {
+			exitID = ins.ID
+		}
 		// the reference run tells whether the modification is reachable at all; unreachable placements (dead code after
 		// an unconditional exit, unselected switch clauses, …) are still compiled and run by the engine for 1 in 6
 		refReached := true
